@@ -687,7 +687,14 @@ func (e *Engine) valueEq(a, b Value, t types.Type) Term {
 		return And(Eq(x.Arr, y.Arr), Eq(x.Off, y.Off), Eq(x.Len, y.Len))
 	case VIface:
 		y := b.(VIface)
-		return And(Eq(x.Tag, y.Tag), Eq(x.Val, y.Val))
+		// the nil interface is the one with type tag 0 (its value word is irrelevant)
+		if y.Tag.S == "0" {
+			return Eq(x.Tag, TZero)
+		}
+		if x.Tag.S == "0" {
+			return Eq(y.Tag, TZero)
+		}
+		return And(Eq(x.Tag, y.Tag), Or(Eq(x.Tag, TZero), Eq(x.Val, y.Val)))
 	case VFunc:
 		switch y := b.(type) {
 		case VFunc:
@@ -780,12 +787,17 @@ func (e *Engine) convert(st *State, fr *Frame, in ssa.Instruction, v Value, from
 }
 
 func (e *Engine) bytesToString(st *State, s VSlice) VStr {
-	r := e.sym.Fresh("str", SStr)
 	h := e.heapGet(st, heapName(types.Typ[types.Uint8], ""), arrOf(SArr))
-	st.Assume(Eq(app(SInt, "slen", r), s.Len))
-	q := fmt.Sprintf("(forall ((i Int)) (! (= (select (sdata %s) i) (ite (and (<= 0 i) (< i %s)) (select (select %s %s) (+ %s i)) 0)) :pattern ((select (sdata %s) i))))", r.S, s.Len.S, h.S, s.Arr.S, s.Off.S, r.S)
-	st.Assume(Term{q, SBool})
-	return VStr{r}
+	return e.strOf(Select(h, s.Arr), s.Off, s.Len)
+}
+
+// strOf: the string made of the bytes d[o..o+l) -- a function symbol with defining axioms, so that
+// code and contracts denote the same value and equal contents give equal strings.
+func (e *Engine) strOf(d, o, l Term) VStr {
+	f := e.sym.Func("str_of", []string{SArr, SInt, SInt}, SStr)
+	e.sym.Axiom(f, "(assert (forall ((d (Array Int Int)) (o Int) (l Int)) (! (= (slen (str_of d o l)) (ite (>= l 0) l 0)) :pattern ((str_of d o l)))))\n"+
+		"(assert (forall ((d (Array Int Int)) (o Int) (l Int) (i Int)) (! (= (select (sdata (str_of d o l)) i) (ite (and (<= 0 i) (< i l)) (select d (+ o i)) 0)) :pattern ((select (sdata (str_of d o l)) i)))))")
+	return VStr{app(SStr, f, d, o, l)}
 }
 
 func (e *Engine) strConcat(st *State, a, b VStr) VStr {
@@ -983,6 +995,18 @@ func (e *Engine) loopEntry(st *State, fr *Frame, head, pred *ssa.BasicBlock, k c
 	}
 	e.bindLoopNames(st, fr, head)
 	e.havocLoopHeap(st, fr, head)
+	// map iterators advanced in the loop: the set of keys already produced is arbitrary
+	for b := range fr.loops.body[head] {
+		for _, in := range b.Instrs {
+			if nx, ok := in.(*ssa.Next); ok {
+				if it, ok := fr.vals[nx.Iter].(VIter); ok {
+					ks := e.keySort(it.MT.Key())
+					st.ghost[it.Name] = e.sym.Fresh("seen", "(Array "+ks+" Bool)")
+					st.ghost["iter!current"] = Term{it.Name, SInt}
+				}
+			}
+		}
+	}
 	_ = preHeap
 	// 3. assume invariants
 	for _, inv := range invs {
@@ -1055,6 +1079,7 @@ func (e *Engine) havocLoopHeap(st *State, fr *Frame, head *ssa.BasicBlock) {
 	types_ := map[string]bool{}
 	prefixRoots := map[string]types.Type{}
 	prefixMaps := map[string]*types.Map{}
+	compTargets := map[string]bool{} // component prefixes havocked for all objects
 	var chains []objTarget
 	add := func(prefix string, base ssa.Value, refOf func(Value) (Term, bool)) {
 		// make sure the components exist on this path before they are havocked
@@ -1071,6 +1096,16 @@ func (e *Engine) havocLoopHeap(st *State, fr *Frame, head *ssa.BasicBlock) {
 		}
 		if base != nil && !inLoop(base) {
 			if v, ok := fr.vals[base]; ok {
+				if r, ok := refOf(v); ok {
+					objs = append(objs, objTarget{prefix, r})
+					return
+				}
+			}
+		}
+		if base != nil && inLoop(base) {
+			// a field of a loop-invariant object re-read in every iteration (b.entries): if the
+			// loop never stores to that struct type the value is the one at the loop head
+			if v, ok := e.invariantFieldLoad(st, fr, base, inLoop, body); ok {
 				if r, ok := refOf(v); ok {
 					objs = append(objs, objTarget{prefix, r})
 					return
@@ -1100,6 +1135,15 @@ func (e *Engine) havocLoopHeap(st *State, fr *Frame, head *ssa.BasicBlock) {
 					continue
 				}
 				prefixRoots[prefix] = root
+				if al, isAlloc := base.(*ssa.Alloc); isAlloc && inLoop(al) {
+					// a variable allocated inside the loop: only objects younger than the loop
+					// entry are written
+					for _, cc := range flatten(root) {
+						e.heapGet(st, heapName(root, cc.Path), arrOf(arrOf(cc.Sort)))
+					}
+					chains = append(chains, objTarget{prefix, TZero})
+					continue
+				}
 				add(prefix, base, refOfAny)
 			case *ssa.MapUpdate:
 				mt := under(x.Map.Type()).(*types.Map)
@@ -1138,6 +1182,12 @@ func (e *Engine) havocLoopHeap(st *State, fr *Frame, head *ssa.BasicBlock) {
 						add("M!"+heapTypeName(mt.Key())+"!"+heapTypeName(mt.Elem())+"!", c.Args[0], refOfAny)
 						continue
 					}
+				}
+				if ws, ok := e.contractWrites(c); ok {
+					for _, w := range ws {
+						compTargets[w] = true
+					}
+					continue
 				}
 				if !e.callIsPure(fr, c) {
 					havocAll = true
@@ -1186,6 +1236,20 @@ func (e *Engine) havocLoopHeap(st *State, fr *Frame, head *ssa.BasicBlock) {
 			st.Assume(Term{q, SBool})
 		}
 	}
+	for prefix := range compTargets {
+		// the component may not have been touched yet on this path: it then keeps its name but
+		// must not be the initial heap any more
+		found := false
+		for _, name := range names {
+			if strings.HasPrefix(name, prefix) {
+				st.heap[name] = e.sym.Fresh("Hloop!"+name, st.heap[name].Sort)
+				found = true
+			}
+		}
+		if !found {
+			st.pendingHavoc = append(st.pendingHavoc, prefix)
+		}
+	}
 	for prefix := range types_ {
 		for _, name := range names {
 			if strings.HasPrefix(name, prefix) {
@@ -1210,6 +1274,103 @@ func (e *Engine) havocLoopHeap(st *State, fr *Frame, head *ssa.BasicBlock) {
 	nx := e.sym.Fresh("next", SInt)
 	st.Assume(Ge(nx, st.next))
 	st.next = nx
+}
+
+// invariantFieldLoad: v is `*(&p.f.g)` evaluated inside the loop with p defined outside and no store
+// in the loop writing to p's struct type: returns the value of that field at the loop head.
+func (e *Engine) invariantFieldLoad(st *State, fr *Frame, v ssa.Value, inLoop func(ssa.Value) bool, body map[*ssa.BasicBlock]bool) (Value, bool) {
+	ld, ok := v.(*ssa.UnOp)
+	if !ok || ld.Op != token.MUL {
+		return nil, false
+	}
+	var fields []string
+	addr := ld.X
+	for {
+		fa, ok := addr.(*ssa.FieldAddr)
+		if !ok {
+			break
+		}
+		stt := under(fa.X.Type()).(*types.Pointer).Elem().Underlying().(*types.Struct)
+		fields = append([]string{stt.Field(fa.Field).Name()}, fields...)
+		addr = fa.X
+	}
+	if len(fields) == 0 || inLoop(addr) {
+		return nil, false
+	}
+	pv, ok := fr.vals[addr]
+	if !ok {
+		return nil, false
+	}
+	p, ok := pv.(VPtr)
+	if !ok || p.ArrLen >= 0 {
+		return nil, false
+	}
+	// no store in the loop may write the loaded field of an object of the root struct type
+	rootPrefix := "A!" + heapTypeName(p.Root) + "!"
+	loaded := rootPrefix
+	{
+		pp, _ := pathPrefix(p.Path)
+		loaded += pp
+		for _, f := range fields {
+			loaded += "." + f
+		}
+	}
+	overlaps := func(w string) bool {
+		return w == "" || strings.HasPrefix(w, loaded) || strings.HasPrefix(loaded, w)
+	}
+	for b := range body {
+		for _, in := range b.Instrs {
+			switch x := in.(type) {
+			case *ssa.Store:
+				if overlaps(storeCompPrefix(x.Addr)) {
+					return nil, false
+				}
+			case *ssa.Call:
+				if ws, ok := e.contractWrites(x.Common()); ok {
+					bad := false
+					for _, w := range ws {
+						if overlaps(w) {
+							bad = true
+						}
+					}
+					if bad {
+						return nil, false
+					}
+					continue
+				}
+				if !e.callIsPure(fr, x.Common()) {
+					if bi, ok := x.Common().Value.(*ssa.Builtin); ok {
+						switch bi.Name() {
+						case "append", "copy":
+							if sl, ok := under(x.Common().Args[0].Type()).(*types.Slice); ok && "A!"+heapTypeName(sl.Elem())+"!" != rootPrefix {
+								continue
+							}
+						case "delete":
+							continue
+						}
+					}
+					return nil, false
+				}
+			}
+		}
+	}
+	np := p
+	for _, f := range fields {
+		np.Path = append(append([]Step{}, np.Path...), Step{Field: f})
+	}
+	var val Value
+	func() {
+		defer func() {
+			if r := recover(); r != nil {
+				val = nil
+			}
+		}()
+		val = e.loadPtr(st, np, nil)
+	}()
+	if val == nil {
+		return nil, false
+	}
+	return val, true
 }
 
 // appendChainEntry recognises x = append(x, ...) chains: b must be a phi of the loop head whose
@@ -1292,6 +1453,122 @@ func storeRoot(addr ssa.Value) (string, ssa.Value, types.Type) {
 			return "A!" + heapTypeName(root) + "!", addr, root
 		}
 	}
+}
+
+// storeCompPrefix: the heap component prefix written by a store through addr, including the field
+// path below the root ("A!bucket[V]!.minExpiresAt").
+func storeCompPrefix(addr ssa.Value) string {
+	var fields []string
+	for {
+		switch a := addr.(type) {
+		case *ssa.FieldAddr:
+			stt := under(a.X.Type()).(*types.Pointer).Elem().Underlying().(*types.Struct)
+			fields = append([]string{"." + stt.Field(a.Field).Name()}, fields...)
+			addr = a.X
+			continue
+		case *ssa.IndexAddr:
+			if _, isPtr := under(a.X.Type()).(*types.Pointer); isPtr {
+				if len(fields) > 0 {
+					fields = append([]string{"[]"}, fields...)
+				}
+				addr = a.X
+				continue
+			}
+		}
+		break
+	}
+	root, _, _ := storeRoot(addr)
+	if root == "" {
+		return ""
+	}
+	return root + strings.Join(fields, "")
+}
+
+// contractWrites: for a call to a function under contract whose modifies clauses are all of the form
+// p.f (p a pointer parameter), the component prefixes it may write; ok=false otherwise.
+func (e *Engine) contractWrites(c *ssa.CallCommon) ([]string, bool) {
+	callee := c.StaticCallee()
+	if callee == nil {
+		return nil, false
+	}
+	target := originOf(callee)
+	ct := e.cs.Funcs[fullKey(target)]
+	if ct == nil || ct.Inline || ct.ModAll || ct.NoFrame {
+		return nil, false
+	}
+	if len(ct.Ensures) == 0 && len(ct.Modifies) == 0 && !ct.Pure {
+		return nil, false
+	}
+	var out []string
+	paramType := func(name string) types.Type {
+		for _, p := range target.Params {
+			if p.Name() == name {
+				return p.Type()
+			}
+		}
+		return nil
+	}
+	// static type of a modifies operand: a parameter or a field of a pointer parameter
+	operandType := func(x Expr) types.Type {
+		switch n := x.(type) {
+		case EIdent:
+			return paramType(n.Name)
+		case ESel:
+			id, ok := n.X.(EIdent)
+			if !ok {
+				return nil
+			}
+			ptr, ok := paramType(id.Name).(*types.Pointer)
+			if !ok {
+				return nil
+			}
+			st, ok := ptr.Elem().Underlying().(*types.Struct)
+			if !ok {
+				return nil
+			}
+			for i := 0; i < st.NumFields(); i++ {
+				if st.Field(i).Name() == n.Name {
+					return st.Field(i).Type()
+				}
+			}
+		}
+		return nil
+	}
+	for _, m := range ct.Modifies {
+		switch n := m.(type) {
+		case ESel:
+			id, ok := n.X.(EIdent)
+			if !ok {
+				return nil, false
+			}
+			ptr, ok := paramType(id.Name).(*types.Pointer)
+			if !ok {
+				return nil, false
+			}
+			out = append(out, "A!"+heapTypeName(ptr.Elem())+"!."+n.Name)
+		case ECall:
+			if (n.Fn != "all" && n.Fn != "elems") || len(n.Args) != 1 {
+				return nil, false
+			}
+			t := operandType(n.Args[0])
+			if t == nil {
+				return nil, false
+			}
+			switch u := under(t).(type) {
+			case *types.Slice:
+				out = append(out, "A!"+heapTypeName(u.Elem())+"!")
+			case *types.Map:
+				out = append(out, "M!"+heapTypeName(u.Key())+"!"+heapTypeName(u.Elem())+"!")
+			case *types.Pointer:
+				out = append(out, "A!"+heapTypeName(u.Elem())+"!")
+			default:
+				return nil, false
+			}
+		default:
+			return nil, false
+		}
+	}
+	return out, true
 }
 
 func (e *Engine) havocAllHeap(st *State, why string) {
